@@ -6,7 +6,6 @@ use crate::*;
 pub(crate) fn impl_sqrt(n: &BigUint, scale: i64, ctx: &Context) -> BigDecimal {
     // Calculate the number of digits and the difference compared to the scale
     let num_digits = count_decimal_digits_uint(n);
-    let scale_diff = BigInt::from(num_digits) - scale;
 
     // Calculate the number of wanted digits and the exponent we need to raise the original value to
     // We want twice as many digits as the precision because sqrt halves the number of digits
@@ -14,17 +13,28 @@ pub(crate) fn impl_sqrt(n: &BigUint, scale: i64, ctx: &Context) -> BigDecimal {
     let prec = ctx.precision().get();
     let extra_rounding_digit_count = 5;
     let wanted_digits = 2 * (prec + extra_rounding_digit_count);
-    let exponent = wanted_digits.saturating_sub(num_digits) + u64::from(scale_diff.is_odd());
-    let sqrt_digits = (n * ten_to_the_uint(exponent)).sqrt();
+    let mut exponent = wanted_digits.saturating_sub(num_digits);
 
-    // Calculate the scale of the result
-    let result_scale_digits = 2 * (2 * prec - scale_diff) - 1;
-    let result_scale_decimal: BigDecimal = BigDecimal::new(result_scale_digits, 0) / 4.0;
-    let mut result_scale = result_scale_decimal.with_scale_round(0, RoundingMode::HalfEven).int_val;
+    // the scale of the shifted integer must be even so it may be halved
+    let mut shifted_scale = scale as i128 + exponent as i128;
+    if shifted_scale % 2 != 0 {
+        exponent += 1;
+        shifted_scale += 1;
+    }
+    let shifted_digits = n * ten_to_the_uint(exponent);
+    let sqrt_digits = shifted_digits.sqrt();
 
-    // Round the value so it has the correct precision requested
-    result_scale += count_decimal_digits_uint(&sqrt_digits).saturating_sub(prec);
-    let unrounded_result = BigDecimal::new(sqrt_digits.into(), result_scale.to_i64().unwrap());
+    let mut result_scale = shifted_scale / 2;
+    let mut result_digits = BigInt::from_biguint(Sign::Plus, sqrt_digits);
+
+    // if the integer root was truncated, append a non-zero digit so the
+    // rounding step knows the true value is above the truncated digits
+    if result_digits.magnitude() * result_digits.magnitude() != shifted_digits {
+        result_digits = result_digits * 10 + 1;
+        result_scale += 1;
+    }
+
+    let unrounded_result = BigDecimal::new(result_digits, result_scale.to_i64().expect("scale overflow"));
     unrounded_result.with_precision_round(ctx.precision(), ctx.rounding_mode())
 }
 
